@@ -25,6 +25,7 @@ import (
 	"pgregory.net/rapid"
 	"verif/pbt"
 	"verif/props/c20/engine"
+	"verif/props/c20/uiengine"
 )
 
 func TestMain(m *testing.M) {
@@ -32,6 +33,22 @@ func TestMain(m *testing.M) {
 	pbt.RegisterReplay("probe", func(raw json.RawMessage) error { return replay(raw, 1) })
 	// a concurrent failure depends on the schedule: give it some attempts
 	pbt.RegisterReplay("conc", func(raw json.RawMessage) error { return replay(raw, 12) })
+	pbt.RegisterReplay("ui", func(raw json.RawMessage) error {
+		var c uiengine.Case
+		if err := json.Unmarshal(raw, &c); err != nil {
+			return err
+		}
+		for i := 0; i < 3; i++ { // the structural part is deterministic, the damage of a real overlap is not
+			_, v, inc := runUI(&c)
+			if v != "" {
+				return fmt.Errorf("%s", v)
+			}
+			if inc != "" {
+				return fmt.Errorf("inconclusive: %s", inc)
+			}
+		}
+		return nil
+	})
 	pbt.Main(m, "C20")
 }
 
@@ -70,16 +87,26 @@ var (
 	binDir  string
 )
 
-// childBinary returns the path of the child executable (plain or race-instrumented).  Under
-// ./check both are built beforehand (check.json extra_builds); run by hand they are built here.
-func childBinary(race bool) (string, string) {
+// childBinary returns the path of a child executable: "c20child" (plain), "c20child.race"
+// (race-instrumented) or "c20ui" (the text-UI wiring child).  Under ./check they are built
+// beforehand (check.json extra_builds); run by hand they are built here.
+func childBinary(name string) (string, string) {
 	binOnce.Do(func() {
+		all := map[string][]string{
+			"c20child":      {"verif/props/c20/child"},
+			"c20child.race": {"-race", "verif/props/c20/child"},
+			"c20ui":         {"verif/props/c20/uichild"},
+		}
 		binDir = os.Getenv("VERIF_BUILD")
 		if binDir != "" {
-			if _, err := os.Stat(filepath.Join(binDir, "c20child")); err == nil {
-				if _, err := os.Stat(filepath.Join(binDir, "c20child.race")); err == nil {
-					return
+			ok := true
+			for n := range all {
+				if _, err := os.Stat(filepath.Join(binDir, n)); err != nil {
+					ok = false
 				}
+			}
+			if ok {
+				return
 			}
 		}
 		dir, err := os.MkdirTemp("", "c20child")
@@ -88,22 +115,15 @@ func childBinary(race bool) (string, string) {
 			return
 		}
 		binDir = dir
-		for _, r := range []bool{false, true} {
-			args := []string{"build", "-tags", "verif", "-o", filepath.Join(dir, "c20child")}
-			if r {
-				args = []string{"build", "-tags", "verif", "-race", "-o", filepath.Join(dir, "c20child.race")}
-			}
-			cmd := exec.Command("go", append(args, "verif/props/c20/child")...)
-			if out, err := cmd.CombinedOutput(); err != nil {
-				binErr = fmt.Sprintf("cannot build the child: %v\n%s", err, out)
+		for n, extra := range all {
+			args := append([]string{"build", "-tags", "verif", "-o", filepath.Join(dir, n)}, extra...)
+			if out, err := exec.Command("go", args...).CombinedOutput(); err != nil {
+				binErr = fmt.Sprintf("cannot build the child %s: %v\n%s", n, err, out)
 				return
 			}
 		}
 	})
-	if race {
-		return filepath.Join(binDir, "c20child.race"), binErr
-	}
-	return filepath.Join(binDir, "c20child"), binErr
+	return filepath.Join(binDir, name), binErr
 }
 
 func headTail(b []byte, h, t int) string {
@@ -121,18 +141,37 @@ func tail(b []byte, n int) string {
 }
 
 func runChild(c *engine.Case) (o outcome) {
+	name := "c20child"
 	race := c.Race
 	if v := os.Getenv("C20_FORCE_RACE"); v != "" { // dev knob for the sensitivity runs (MUTANTS.md)
 		race = v == "1"
 	}
-	bin, berr := childBinary(race)
-	if berr != "" {
-		o.inconclusive = berr
-		return
+	if race {
+		name = "c20child.race"
 	}
 	in, err := json.Marshal(c)
 	if err != nil {
 		o.inconclusive = "cannot serialise the case: " + err.Error()
+		return
+	}
+	var line []byte
+	o, line = launch(name, in, engine.CPULimit)
+	if line != nil {
+		if err := json.Unmarshal(line, &o.res); err != nil {
+			o.inconclusive = "unreadable RESULT line: " + err.Error()
+			return
+		}
+		o.violation, o.inconclusive = o.res.Violation, o.res.Inconclusive
+	}
+	return
+}
+
+// launch runs one child on one case; it returns the RESULT line, or the classification of a child
+// that ended without one.
+func launch(name string, in []byte, cpuLimit int) (o outcome, result []byte) {
+	bin, berr := childBinary(name)
+	if berr != "" {
+		o.inconclusive = berr
 		return
 	}
 	ctx, cancel := context.WithTimeout(context.Background(), childTimeout)
@@ -159,12 +198,7 @@ func runChild(c *engine.Case) (o outcome) {
 		if j := bytes.IndexByte(line, '\n'); j >= 0 {
 			line = line[:j]
 		}
-		if err := json.Unmarshal(line, &o.res); err != nil {
-			o.inconclusive = "unreadable RESULT line: " + err.Error()
-			return
-		}
-		o.violation, o.inconclusive = o.res.Violation, o.res.Inconclusive
-		return
+		return o, append([]byte(nil), line...)
 	}
 	// no verdict from the child: it died
 	errTxt := headTail(stderr.Bytes(), 2500, 500) // the fault and the faulting goroutine come first
@@ -176,8 +210,8 @@ func runChild(c *engine.Case) (o outcome) {
 		o.inconclusive = fmt.Sprintf("child could not be started: %v", runErr)
 		return
 	}
-	if o.cpu >= (engine.CPULimit-2)*time.Second {
-		o.inconclusive = fmt.Sprintf("child used up its CPU limit of %d s (%v) - spinning?", engine.CPULimit, cmd.ProcessState)
+	if o.cpu >= time.Duration(cpuLimit-2)*time.Second {
+		o.inconclusive = fmt.Sprintf("child used up its CPU limit of %d s (%v) - spinning?", cpuLimit, cmd.ProcessState)
 		return
 	}
 	if ws, ok := cmd.ProcessState.Sys().(syscall.WaitStatus); ok && ws.Signaled() && ws.Signal() == syscall.SIGKILL {
@@ -576,6 +610,143 @@ func TestConcurrent(t *testing.T) {
 		c := genConc(r.T, tb)
 		r.Case(c)
 		judge(r, &c)
+	})
+	failIfInconclusive(t)
+}
+
+// ---------------------------------------------------------------------------------------------
+// the wiring into the client: text-UI "defrag" versus the main thread's commits (see uiengine)
+
+func runUI(c *uiengine.Case) (st uiengine.Stats, violation, inconclusive string) {
+	in, err := json.Marshal(c)
+	if err != nil {
+		return st, "", "cannot serialise the case: " + err.Error()
+	}
+	o, line := launch("c20ui", in, uiengine.CPULimit)
+	if line == nil {
+		return st, o.violation, o.inconclusive
+	}
+	var res uiengine.Result
+	if err := json.Unmarshal(line, &res); err != nil {
+		return st, "", "unreadable RESULT line: " + err.Error()
+	}
+	return res.Stats, res.Violation, res.Inconclusive
+}
+
+// what the operator may type.  memDefrag lines make utxo_defrag call common.DefragUTXOMem; the others
+// are commands that exist, are harmless in the harness's environment (no network, no block chain) and
+// cover both kinds: executed by the UI goroutine itself (async) and queued for the main thread (sync).
+var (
+	uiMemDefrag = []string{"defrag mem", "defrag rec", "defrag all", "def mem", "def rec", "def all", "defrag mem map", "defrag map rec", "defrag rec bogus"}
+	uiOther     = []string{"defrag", "def", "defrag map", "defrag bogus", "defrag 3", // defrag forms that only show statistics / defragment the Go maps
+		"help", "h", "?", "counters", "c", "c Main", "mem", "mem gc", "mem free", "mem 100", "xyz", "", "  ", "helpme", // async
+		"utxomem", "um", "um v", "utxodb", "u", "purge", "web"} // sync
+)
+
+func genUILine(t *rapid.T, pMem int) string {
+	if uni(t, "linekind", 0, 99) < pMem {
+		return uiMemDefrag[uni(t, "memdefrag", 0, len(uiMemDefrag)-1)]
+	}
+	return uiOther[uni(t, "other", 0, len(uiOther)-1)]
+}
+
+func genUI(t *rapid.T) (c uiengine.Case, fill bool) {
+	c.Procs = []int{1, 2, 4, 16}[uni(t, "procs", 0, 3)]
+	n := rapid.IntRange(2, 8).Draw(t, "steps")
+	// most cases fill one size class and spend most of it again, so that a defragmentation has work to do
+	fillAt := -1
+	if uni(t, "fill", 0, 9) < 7 {
+		fillAt = uni(t, "fillat", 0, n-2)
+		fill = true
+	}
+	for i := 0; i < n; i++ {
+		s := uiengine.Step{Seed: rapid.Uint64().Draw(t, "seed")}
+		switch {
+		case i == fillAt:
+			s.Size = []int{60, 200, 600, 2000, 6000}[uni(t, "fillsize", 0, 4)]
+			s.Spread = uni(t, "spread", 0, 8)
+			s.Outs = 1
+			s.Add = uni(t, "fillmb", 15, 30) << 20 / (s.Size + 70)
+			s.Del = uni(t, "del", 0, 20)
+		case i == fillAt+1 && fillAt >= 0:
+			s.Add = uni(t, "add", 0, 200)
+			s.Size = rapid.IntRange(1, 10000).Draw(t, "size")
+			s.Outs = uni(t, "outs", 1, 3)
+			s.Del, s.Partial = uni(t, "del", 60, 95), uni(t, "partial", 0, 20)
+		default:
+			s.Add = rapid.IntRange(0, 400).Draw(t, "add")
+			s.Size = rapid.IntRange(1, 10000).Draw(t, "size")
+			s.Spread = uni(t, "spread", 0, 40)
+			s.Outs = uni(t, "outs", 1, 3)
+			if uni(t, "manyouts", 0, 9) == 0 { // large records: the big classes and the private-mapping path
+				s.Outs = uni(t, "outs", 4, 24)
+				if s.Add > 40 {
+					s.Add = 40
+				}
+			}
+			s.Del, s.Partial = uni(t, "del", 0, 40), uni(t, "partial", 0, 60)
+		}
+		if uni(t, "hasline", 0, 9) < 8 {
+			s.Line = genUILine(t, 50)
+			if s.Line == "" || s.Line == "  " {
+				s.Line = "help" // the line typed inside a commit is a command
+			}
+		}
+		for j, k := 0, rapid.IntRange(0, 4).Draw(t, "nafter"); j < k; j++ {
+			s.After = append(s.After, genUILine(t, 30))
+		}
+		c.Steps = append(c.Steps, s)
+	}
+	return
+}
+
+func TestUIWiring(t *testing.T) {
+	pbt.Check(t, pbt.Cfg{Name: "ui", Quick: 128, Thorough: 3200}, func(r *pbt.Run) {
+		c, fill := genUI(r.T)
+		r.Case(c)
+		inconMu.Lock()
+		giveUp := len(incon) >= 3
+		inconMu.Unlock()
+		if giveUp {
+			return
+		}
+		st, viol, inc := runUI(&c)
+		if inc != "" {
+			inconMu.Lock()
+			incon = append(incon, inc)
+			inconMu.Unlock()
+			pbt.AddExtra("inconclusive_children", 1)
+			return
+		}
+		if st.DefragInCommit > 0 {
+			r.Class("memdefrag_typed_during_commit")
+		}
+		if st.DefragLines > st.DefragInCommit {
+			r.Class("memdefrag_typed_between_batches")
+		}
+		if st.LinesInCommit > st.DefragInCommit {
+			r.Class("other_command_typed_during_commit")
+		}
+		if st.DefragsThatMoved > 0 {
+			r.Class("defrag_moved_records")
+		}
+		if fill {
+			r.Class("fill_and_fragment")
+		}
+		if st.Reserialised > 0 {
+			r.Class("partial_spends")
+		}
+		if st.DefragInCommit > 0 || st.DefragsThatMoved > 0 {
+			r.NonTrivial()
+		}
+		pbt.AddExtra("ui_lines_typed", int64(st.Lines))
+		pbt.AddExtra("ui_requests_serviced_by_main_thread", int64(st.Serviced))
+		pbt.AddExtra("ui_records_added", st.Added)
+		pbt.AddExtra("ui_records_spent", st.Spent)
+		pbt.AddExtra("ui_defrags_that_moved", int64(st.DefragsThatMoved))
+		if viol != "" {
+			r.Failf("%s", viol)
+		}
 	})
 	failIfInconclusive(t)
 }
